@@ -28,9 +28,9 @@ type Obligation struct {
 	Secs   float64
 	Model  string
 	Dead   bool
-	Except string // known finding: Bool term describing the recorded failing inputs
+	Except string  // known finding: Bool term describing the recorded failing inputs
 	Clause *Clause // post obligations: the ensures clause
-	Stage  int    // solving stage that decided the obligation (1, 2: sliced; 3: full abstract; 4: full exact)
+	Stage  int     // solving stage that decided the obligation (1, 2: sliced; 3: full abstract; 4: full exact)
 }
 
 // Exec is the verification-condition generator state for one function under verification.
